@@ -733,8 +733,11 @@ class UnionUnmarshaller(AbstractUnmarshaller[UnionT], tp.Generic[UnionT]):
         """
         super().__init__(t, context, var=var)
         self.stack = inspection.args(t, evaluate=True)
+        # `None` is only ever unmarshalled from `None`, so it is safe to check first,
+        #   wherever it was declared.
         if inspection.isoptionaltype(t):
-            self.stack = (self.stack[-1], *self.stack[:-1])
+            nonetype = type(None)
+            self.stack = (nonetype, *(a for a in self.stack if a is not nonetype))
 
         self.ordered_routines = [self.context[typ] for typ in self.stack]
 
